@@ -154,3 +154,36 @@ def contains_wrong_kind(kind: int, lo: int, hi: int, s: str, f: float) -> bool:
   got = cfg.contains(lo)
   reach('int_to_cat')
   return finish(got is False, (kind, lo, hi, s, f))
+
+
+def contains_wrapped(kind: int, v: float, i: int, s: int) -> bool:
+  """
+  pre: 0 <= kind <= 4 and 0 <= s <= 4
+  post: _
+  """
+  kind = conc(kind, 0, 4)
+  args = (kind, v, i, s)
+  s = ['32', '16.0', '64 ', 'x', ''][conc(s, 0, 4)]
+  # membership of a WRAPPED value (ParameterValue, as carried by ParameterDict / Trial.parameters) is membership of the
+  # value it wraps: no casting on the way
+  if kind == 0:      # integer-valued discrete (presented as int): a float next to a feasible value is not a member
+    if not _finite(v):
+      return True
+    cfg = pc.ParameterConfig.factory('d', feasible_values=[16, 32, 64])
+    got, want = cfg.contains(tr.ParameterValue(v)), (v == 16 or v == 32 or v == 64)
+  elif kind == 1:    # ... nor is a string
+    cfg = pc.ParameterConfig.factory('d', feasible_values=[16, 32, 64])
+    got, want = cfg.contains(tr.ParameterValue(s)), False
+  elif kind == 2:    # non-integral discrete
+    if not _finite(v):
+      return True
+    cfg = pc.ParameterConfig.factory('d', feasible_values=[0.25, 0.5])
+    got, want = cfg.contains(tr.ParameterValue(v)), (v == 0.25 or v == 0.5)
+  elif kind == 3:    # boolean parameter (categorical 'True'/'False'): numbers are not members
+    cfg = pc.ParameterConfig.factory('b', feasible_values=['False', 'True'], external_type=pc.ExternalType.BOOLEAN)
+    got, want = cfg.contains(tr.ParameterValue(i)), False
+  else:              # INTEGER range: an int inside / outside
+    cfg = pc.ParameterConfig.factory('n', bounds=(1, 5))
+    got, want = cfg.contains(tr.ParameterValue(i)), 1 <= i <= 5
+  reach('wrapped%d_%s' % (kind, 'in' if want else 'out'))
+  return finish(got == want, args)
